@@ -40,6 +40,7 @@ def build_plan(choice: Choice, tier):
             n = d(41 if thorough else 15, "items")
         call["n"] = n
         call["lazy"] = d(3, "lazy") == 2
+        call["input_type"] = ["list", "tuple", "iterator", "range-like", "list"][d(5, "input.type")]
         # 'exact': the caller takes exactly len(data) results (zip / islice style) and never asks for more
         call["consume"] = "exact" if d(4, "consume") == 3 else "full"
         calls.append(call)
@@ -85,7 +86,8 @@ def scenario(k: Kernel, plan, obs):
                         k.switch("input.pause")
                     yield (c, i)
             return gen()
-        return [(c, i) for i in range(call["n"])]
+        from props.poolsim import typed_input
+        return typed_input(c, call)
 
     cp = plan["consumer_pause"]
     if plan["mode"] == "FunctorMap":
